@@ -90,6 +90,14 @@ def drive(ctx):
         else:
             t2 = {"k": "time", "w": [rnd.randrange(24), rnd.randrange(60), rnd.randrange(60), u2], "cls": "Time"}
         ctx.emit("humanize", {"entry": "time_diff_for_humans", "is_now": False, "absolute": bool(k % 5 == 0), "locale": rnd.choice(locs)}, [t1, t2])
+    # a Date against Dates, DateTimes and their native counterparts
+    for k in range(60 if q else 1500):
+        d0 = [rnd.randrange(1990, 2030), rnd.randrange(1, 13), rnd.randrange(1, 29)]
+        d1 = [d0[0] + rnd.choice((0, 0, 1, -2)), rnd.randrange(1, 13), rnd.randrange(1, 29)] if k % 3 else [d0[0], d0[1], min(28, d0[2] + rnd.randrange(0, 9))]
+        x = {"k": "date", "w": d0, "cls": "Date"}
+        y = {"k": "date", "w": d1, "cls": "Date"} if k % 2 else mk_dt(UTCZ if k % 4 else {"n": "Europe/Paris", "fo": 0}, d1 + [rnd.randrange(24), 30, 0, 0], 0)
+        ctx.emit("humanize", {"entry": "date_diff_for_humans", "is_now": False, "absolute": bool(k % 5 == 0), "locale": rnd.choice(locs),
+                              "other": ("pendulum", "native")[(k // 2) % 2]}, [x, y])
     # in_words
     durs = [dict(y=1), dict(mo=2), dict(w=3), dict(d=4), dict(h=5), dict(mi=6), dict(s=7), dict(y=1, mo=1, w=1, d=1, h=1, mi=1, s=1),
             dict(y=2, mo=3, w=2, d=5, h=22, mi=59, s=59), dict(d=-3, h=-2), dict(w=-1), dict(s=0), dict(us=123456), dict(h=21, s=2),
